@@ -702,11 +702,31 @@ def replay_concrete(ob, vals, path_kind="ok", exc_type=None):
     return last
 
 
+def _raised_in_harness(exc):
+    """True when the innermost frame of the traceback that belongs to either the library or the check scripts is a check script"""
+    from . import qenv
+    lib = os.path.join(os.path.realpath(qenv.REPO), "quara") + os.sep
+    chk = os.path.join(os.path.dirname(os.path.dirname(os.path.abspath(__file__))), "checks") + os.sep
+    last = None
+    tb = exc.__traceback__
+    while tb is not None:
+        fn = os.path.realpath(tb.tb_frame.f_code.co_filename)
+        if fn.startswith(lib):
+            last = "lib"
+        elif fn.startswith(chk):
+            last = "harness"
+        tb = tb.tb_next
+    return last == "harness"
+
+
 def _replay_concrete_one(ob, vals, path_kind="ok", exc_type=None):
     cr = ConcreteRun(ob, vals)
     if not cr.assume_ok:
         return False, None, "assumptions do not hold at the model point (rounding)"
     if cr.exc is not None:
+        if _raised_in_harness(cr.exc):
+            # e.g. the harness reaches for an attribute the library no longer has: a fault of the check, not of the code under test
+            return False, None, f"harness error (raised in /verif/checks, not in the library): {type(cr.exc).__name__}: {str(cr.exc)[:200]}"
         label = "exception:" + type(cr.exc).__name__
         return True, label, f"real code raised {type(cr.exc).__name__}: {str(cr.exc)[:200]}"
     if exc_type is not None:
